@@ -28,6 +28,9 @@ SHAPES = {
                            'tags': [{'token': 'ba', 'cands': [['N', 'V']], 'char': [('a', [0]), ('ba', [0])], 'type': [('RR', [0]), ('R', [1])]}]},
     't6-single-only': {'cw': 1, 'tw': 1, 'char': ['a'],
                        'tags': [{'token': 'a', 'cands': [['only'], ['one']], 'char': [], 'type': []}]},
+    # more than 8 classes for one token: the class-score vector is longer than the fixed 8-lane layout
+    't7-nine-classes': {'cw': 1, 'tw': 1, 'char': ['a'],
+                        'tags': [{'token': 'a', 'cands': [['A1', 'A2', 'A3'], ['B1', 'B2', 'B3'], ['C1', 'C2', 'C3']], 'char': [('a', [0])], 'type': []}]},
 }
 BOUNDS = {
     'quick': {'text_chars': '1..3', 'shapes': sorted(SHAPES), 'labels': 'symbolic in {WB,NB,Unknown} (set after prediction, as a filter would)',
@@ -52,6 +55,8 @@ def jobs(tier, seed):
         for n in range(1, (3 if tier == 'quick' else 5) + 1):
             for store in (False, True):
                 if tier == 'quick' and heavy and n == 3 and not store:
+                    continue
+                if name == 't7-nine-classes' and (n > (1 if tier == 'quick' else 2) or not store):
                     continue
                 if tier == 'thorough' and heavy and n == 5:
                     continue
